@@ -146,8 +146,8 @@ def _walk(o, fn):
 
 def spec_info(g):
     """-> {'cls', 'pins' (pinned ok values), 'sentinels', 'credit' (bool), 'classes' (all grader classes used),
-           'plain_string_leaves' (every leaf grader is a StringGrader with default cleaning), 'expects' (all strings
-           configured as expect anywhere, only meaningful with plain_string_leaves)}"""
+           'plain_string_leaves' (every leaf grader is a StringGrader with default cleaning and no SingleListGrader is
+           involved; string_expects() then lists every configured answer)}"""
     pins, sent, classes, leaves = [], set(), [], []
 
     def visit(o):
@@ -590,7 +590,7 @@ class SingleListLeaf:
         if base.cls == 'SingleListGrader':
             self.delims = ['|'] if base.base.commas else [';', '|']
         elif base.commas:
-            self.delims = [';'] if level == 0 else [';']
+            self.delims = [';']
         else:
             self.delims = [',', ',', ';'] if level == 0 else [',']
         self.level = level
@@ -1015,11 +1015,12 @@ def student_inputs(draw, case):
         if case['kind'] == 'Sum' and chance(draw, 50):
             return [vals[0]]
         return vals[0]
-    if mode >= 4 and chance(draw, 8):
-        if chance(draw, 50) and len(vals) > 1:
+    if chance(draw, 10):
+        # a box too many / too few (a ListGrader must refuse it, never answer with a different number of entries)
+        if chance(draw, 40) and len(vals) > 1:
             vals = vals[:-1]
         else:
-            vals = vals + [draw(junk)]
+            vals = vals + [draw(s.good) if chance(draw, 50) else draw(junk)]
     elif mode >= 4 and chance(draw, 20):
         vals = list(draw(st.permutations(vals)))
     return vals
